@@ -434,6 +434,21 @@ mut("C16-resmap", "C16", [(MOT3, "        res_map = {16: 1, 8: 2, 4: 3, 2: 4, 1:
 mut("C16-no-increment", "C16", [(SER3, "            self.var_write(byte, start_index)\n            start_index += 1", "            self.var_write(byte, start_index)")])
 mut("C16-oldres-motor2", "C16", [(MOT3, "            if motor_res[1] != 0:\n                old_res = motor_res[1]\n", "")],
     "prior state with only motor 2 enabled is read as 'no resolution set'")
+mut("C16-class-ram-shadow", "C16", [
+    (SER3, "        value = self.query(f'QL,{index}')\n", "        if index in EBB3._ram_shadow:\n            return EBB3._ram_shadow[index]\n        value = self.query(f'QL,{index}')\n"),
+    (SER3, "    MIN_VERSION_STRING = \"3.0.2\"    # Minimum supported EBB firmware version.\n", "    MIN_VERSION_STRING = \"3.0.2\"    # Minimum supported EBB firmware version.\n    _ram_shadow = {}\n"),
+    (SER3, "        self.command(f'SL,{value},{index}')\n", "        EBB3._ram_shadow[index] = value\n        self.command(f'SL,{value},{index}')\n")],
+    "write-through RAM shadow kept on the class: correct for one board, answers for the wrong board with two")
+mut("C16-class-name-cache", "C16", [
+    (SER3, "        raw_string = self.query('QT')\n", "        raw_string = EBB3._nick_cache.get('QT') or self.query('QT')\n        EBB3._nick_cache['QT'] = raw_string\n"),
+    (SER3, "            if not self.command('ST,' + nickname):", "            EBB3._nick_cache.clear()\n            if not self.command('ST,' + nickname):"),
+    (SER3, "    MIN_VERSION_STRING = \"3.0.2\"    # Minimum supported EBB firmware version.\n", "    MIN_VERSION_STRING = \"3.0.2\"    # Minimum supported EBB firmware version.\n    _nick_cache = {}\n")],
+    "QT reply cached on the class and dropped by any write_nickname: right for one board")
+mut("C16-class-qe-cache", "C16", [
+    (MOT3, "        response = self.query(\"QE\")\n        if response is None:\n            return None\n", "        if EBBMotionWrap._qe_cache is not None:\n            response = EBBMotionWrap._qe_cache\n        else:\n            response = self.query(\"QE\")\n        if response is None:\n            return None\n        EBBMotionWrap._qe_cache = response\n"),
+    (MOT3, "        resolution_1 = max(int(resolution_1), 0)\n", "        EBBMotionWrap._qe_cache = None\n        resolution_1 = max(int(resolution_1), 0)\n"),
+    (MOT3, "    #pylint: disable=too-many-public-methods\n", "    #pylint: disable=too-many-public-methods\n    _qe_cache = None\n")],
+    "QE reply cached on the class, invalidated by any motors_enable: right for one board")
 
 # ------------------------------------------------------------------------------- C18
 mut("C18-ge", "C18", [(PU, "    if value > upper_bound:\n        return upper_bound, True\n", "    if value >= upper_bound:\n        return upper_bound, True\n")])
